@@ -11,7 +11,7 @@ Every input goes through EVERY command of the CLI (parse --as x4, translate --wi
 through `str::parse::<T>()` of all 43 node types in-process (harness op `parse_any`).
 
 A crash = exit status 101, "panicked at" on stderr, death by signal, or a timeout.  Crashes inside
-the three recorded classes (known_findings.jsonl: F3a, F3b, F11) are counted; the class is
+the recorded classes (known_findings.jsonl: F3a, F11, F15; F3b and F14 are repaired) are counted; the class is
 recognised from the INPUT (e.g. a digit run beyond isize::MAX) together with the symptom, so that
 a different crash on the same input, or the same symptom on another kind of input, is still a
 VIOLATION whose replay is the input file and the command.
@@ -124,6 +124,17 @@ def extra(ctx, cfg, results, inprocess=True):
             meta.append((k, t))
     inproc = run_isolating(lines) if lines else []
     dist["node_type_stream_cases"] = n_stream
+    # fixed in-process cases with their expected outcome (corpus/parse_any_expect.txt: regression cases of repaired findings)
+    if inprocess:
+        expected = parse_any_corpus()
+        got = run_isolating([f"parse_any\t({sx(k.encode())} {sx(t)})" for k, t, _ in expected]) if expected else []
+        dist["parse_any_corpus_cases"] = len(expected)
+        for (k, t, want), o in zip(expected, got):
+            ctx.evaluations += 1
+            if o != want:
+                ctx.violation(f"str::parse::<{k}>() of {t.decode()!r} answers {o}, expected {want} (corpus/parse_any_expect.txt)",
+                              {"kind": "custom-crash", "command_id": "parse_any/" + k, "argv": ["<in-process>", k], "input_latin1": t.decode("latin1"),
+                               "input_repr": repr(t), "expected": want, "got": o, "origin": "corpus/parse_any_expect.txt"}, True)
     bad_seeds = [(k, t.decode()) for (k, t), o in zip(meta[:n_stream], inproc[:n_stream])
                  if t.decode() in NODE_SEEDS.get(k, []) and o == "err"]
     if bad_seeds:
@@ -160,6 +171,21 @@ def extra(ctx, cfg, results, inprocess=True):
         f"other crashes: {len(crashes)}")
 
 
+def parse_any_corpus():
+    """[(kind, text bytes, expected outcome)] from corpus/parse_any_expect.txt: `<kind>\t<text>\t<ok|err>` per line
+    (`\\n` in the text = newline; lines beginning with # are comments)"""
+    path = os.path.join(vlib.VERIF, "corpus", "parse_any_expect.txt")
+    out = []
+    if os.path.isfile(path):
+        for line in open(path, encoding="utf8"):
+            line = line.rstrip("\n")
+            if not line.strip() or line.startswith("#"):
+                continue
+            kind, text, want = line.split("\t")
+            out.append((kind, text.replace("\\n", "\n").encode(), want))
+    return out
+
+
 # ------------------------------------------------------------------ known findings through the CLI
 
 def replay_known(ctx, e):
@@ -183,7 +209,7 @@ def replay(ctx, cfg, r):
         k = r["argv"][1]
         o = run_isolating([f"parse_any\t({sx(k.encode())} {sx(text)})"])[0]
         print("parse_any", k, repr(text)[:300], "->", o)
-        bad = o not in ("ok", "err")
+        bad = o != r["expected"] if r.get("expected") else o not in ("ok", "err")
     else:
         with clilib.Scratch("C16-replay") as scratch:
             res = run_input(exe, scratch, 0, text, tuple(r["task"]) if r.get("task") else None)
